@@ -359,7 +359,8 @@ const SIZES: [usize; 14] = [0, 1, 100, 1023, 1024, 1025, 4096, 8190, 8191, 8192,
 
 fn payload_len(long: bool) -> BoxedStrategy<usize> {
     if long {
-        prop_oneof![1 => 0usize..8, 6 => prop::sample::select(SIZES.to_vec()), 1 => 0usize..3000].boxed()
+        // now and then a frame far beyond every buffer mark (the read buffer grows to hundreds of KiB)
+        prop_oneof![2 => 0usize..8, 12 => prop::sample::select(SIZES.to_vec()), 2 => 0usize..3000, 1 => prop::sample::select(vec![40_000usize, 64_000, 65_000, 70_000, 100_000, 140_000])].boxed()
     } else {
         prop_oneof![4 => 0usize..6, 1 => 0usize..24].boxed()
     }
@@ -463,7 +464,7 @@ pub fn case_from_bytes(data: &[u8]) -> Case {
     Case { codec, stream, script, err_at, between, preload }
 }
 
-const RULE: &str = "(codec in {u8-length-prefixed with default decode_eof, u16-length-prefixed with stateful decode_eof, LinesCodec, BytesCodec}, byte stream built from frames of boundary-rich sizes plus truncation/junk or raw delimiter-rich bytes, read script of chunk sizes and Pendings, optional one I/O error at a byte offset, and up to two things done to the Framed between polls that must not change what it yields: into_parts+from_parts / into_map_io / into_map_codec / closing its write half while the peer keeps sending; optionally the first bytes of the stream are already in the read buffer the Framed is built from (FramedParts::with_read_buf)) run through Framed::poll_next on a scripted AsyncRead with a fresh waker per poll, compared item by item with a fresh codec decoding the whole stream at once; non-trivial = >=2 frames with a chunk boundary or Pending inside the stream, or stream > 8 KiB; distinct by the whole case";
+const RULE: &str = "(codec in {u8-length-prefixed with default decode_eof, u16-length-prefixed with stateful decode_eof, LinesCodec, BytesCodec}, byte stream built from frames of boundary-rich sizes (part framed-read-long: up to 20 KB, now and then 40..140 KB) plus truncation/junk or raw delimiter-rich bytes, read script of chunk sizes and Pendings, optional one I/O error at a byte offset, and up to two things done to the Framed between polls that must not change what it yields: into_parts+from_parts / into_map_io / into_map_codec / closing its write half while the peer keeps sending; optionally the first bytes of the stream are already in the read buffer the Framed is built from (FramedParts::with_read_buf)) run through Framed::poll_next on a scripted AsyncRead with a fresh waker per poll, compared item by item with a fresh codec decoding the whole stream at once; non-trivial = >=2 frames with a chunk boundary or Pending inside the stream, or stream > 8 KiB; distinct by the whole case";
 
 pub fn run(ctx: &Ctx) {
     ctx.assume("test codecs are prefix-consistent (decode on a longer buffer yields the same leading frames), as LinesCodec and length-prefixed codecs are; BytesCodec is judged by concatenation only");
